@@ -68,6 +68,7 @@ type rewrite struct {
 	shiftAt, shiftBy int // lines >= shiftAt (1-based, original) move by shiftBy
 	shift2At, shift2 int
 	indented         bool // a composition that includes the uniform re-indentation
+	textStart        bool // the inserted lines stand where a Description text begins: they are the first lines of the text lexeme now
 }
 
 func (rw *rewrite) mapLine(l int) int {
@@ -196,6 +197,24 @@ func genRewrites(d *lexDoc, r *rand.Rand, all bool, perKind int) []*rewrite {
 		txt := commentTexts[r.Intn(len(commentTexts))]
 		out = append(out, &rewrite{kind: "R3-trivia", site: fmt.Sprintf("before line %d (%s)", line+1, d.text(l)), content: insertLines(c, d.lines[line], txt),
 			shiftAt: line + 1, shiftBy: strings.Count(txt, "\n")})
+	}
+	// R3 also between the Description keyword and its text (or its opening parenthesis): empty lines and lines of blanks there are
+	// ignored like anywhere else (comments are not: a '#' line there is text)
+	var descKw []int
+	for i, l := range d.lex {
+		if l.Type == "keyword" && d.text(l) == "Description" && i+1 < len(d.lex) && d.lex[i+1].Type == "text" && d.lineOf(d.lex[i+1].Begin) > d.lineOf(l.Begin) {
+			descKw = append(descKw, i)
+		}
+	}
+	for _, k := range choose(len(descKw)) {
+		l := d.lex[descKw[k]]
+		line := d.lineOf(l.Begin) + 1
+		if line >= len(d.lines) {
+			continue
+		}
+		txt := []string{"\n", "   \n", "\t\n", " \n\n", "        \n"}[r.Intn(5)]
+		out = append(out, &rewrite{kind: "R3-trivia", site: fmt.Sprintf("blank line after the Description keyword of line %d", line), content: insertLines(c, d.lines[line], txt),
+			shiftAt: line + 1, shiftBy: strings.Count(txt, "\n"), textStart: true})
 	}
 	// R4 trailing blanks: lines whose last lexeme is not a Description text
 	lastOnLine := map[int]proto.Lexeme{}
@@ -712,6 +731,11 @@ func C08(c *fw.Ctx) {
 		}
 		if base.Err.Line > 0 && base.Err.Index <= len(d.content) && rw.kind != "RC-composed" { // also errors at the end of the file (they have a line since D40)
 			want := rw.mapLine(base.Err.Line)
+			if rw.textStart && base.Err.Line == rw.shiftAt && res.Err.Line == base.Err.Line {
+				// an error about the text as a whole points at the first line of the text lexeme, which begins right after the
+				// keyword line: the inserted blank lines are its first lines now
+				want = res.Err.Line
+			}
 			if res.Err.Line != want {
 				sig := "error-line:" + rw.kind
 				if strings.HasPrefix(rw.kind, "R1") && res.Err.Line == want-1 && msgClass(base.Err.Msg) == "syntax" {
